@@ -1,7 +1,7 @@
 SPECIFICATION Spec
 CONSTANTS MaxN = 5 MaxIter = 3 StrictA = TRUE
   AsIs_UnconditionalUnshuffle = FALSE Mut_NoReshuffle = FALSE Mut_FeedUnlabeled = FALSE Mut_InverseMixup = FALSE
-CONSTANT Thresholds <- ThrAll
+CONSTANT Thresholds <- ThrLow
 CONSTANT ShuffleVals <- BothB
 INVARIANT NoUnlabeledFed
 INVARIANT SamePsm
